@@ -37,6 +37,8 @@ CLAIMS = {
                 note="Receipt gas <= allowance, out-of-gas behaviour and estimate sufficiency need revm and are outside."),
     "C18": dict(tech=KANI + "; " + SMT, ref="§6 C18", text="Exactness (both range boundaries, cache over disk incl. uncommitted deletions) and key order of the (block,index) scan eth_getLogs is built on, for every hash-map order, committed or not; key order = chain order (MIR->SMT). The range guard and the defaults of get_logs (at most 6 blocks; wider and reversed ranges refused; exactly the key range of the requested blocks is scanned) are decided from the MIR paths of the function prefix for all 64-bit from/to/latest (SMT). NOT decided: per-log address/topic filter semantics (DESIGN.md 11.2).",
                 note="JSON filter parsing and more than the stated number of receipts/logs/topics are outside."),
+    "C20": dict(tech=SMT, ref="§6 C20 (section 14)", text="Narrow claim: the start-up guard validate_config_database is loop-free and made of calls; every path through its compiled MIR is enumerated and the outcome of every environment call (std::fs, `the directory has an entry`, ConfigDatabase::new / set / validate / flush) is a free Boolean, so directory states and fault schedules are solver variables. z3 + cvc5 decide: a non-empty directory is accepted only after validate(key, value of the RUNNING configuration) returned Ok for each of the four recorded settings (database version, protocol version, network, trace recording); a failing validate / set / flush / open is never swallowed; a non-empty directory is never written; an empty one gets exactly these four pairs recorded (same pairing, so an identical configuration reopens) and flushed; a non-directory is refused. Counterexamples are replayed as a native test on real RocksDB. NOT decided: the body of ConfigDatabase::validate (a string comparison; its Kani harnesses over the string-keyed model did not finish or produced a non-reproducing counterexample and are unregistered), RocksDB persistence, that start() calls the guard before opening the engine database.",
+                note="Trusted: ConfigDatabase::validate returns Err iff the key is missing or the stored text differs (the repository's four unit tests); std::fs and RocksDB."),
 }
 
 NA = {
@@ -47,7 +49,6 @@ NA = {
     "C12": "the decision is taken inside tower/jsonrpsee middleware on hyper requests (async stack, http::Extensions); not executable in CBMC, and deny-list completeness is a cross-reference between two source lists, not a solver question",
     "C17": "compares two revm executions",
     "C19": "EVM environment construction and opcode semantics inside revm",
-    "C20": "start-up path is std::fs + RocksDB open (FFI); the only executable leaf is a string equality that decides no clause alone",
 }
 
 
